@@ -310,6 +310,26 @@ def run_witness_task(task):
                         return out
                     out["tried"].append("%s U=%d k=%d: history %s did not show a difference to the reference model natively (%s)" % (lname, U, k, script, obs[:1]))
             return out
+        if kind == "forced":
+            for (U, k, K) in task["plans"]:
+                left = t_end - time.time()
+                if left < 5:
+                    out["tried"].append("time budget exhausted before U=%d k=%d K=%d" % (U, k, K))
+                    break
+                try:
+                    script, info = with_time_limit(min(left, task["timeout"]), W.search_forced, su, U, k, K, timeout_s=int(min(left, task["timeout"])))
+                except (V.Unsupported, MemoryError, Timeout) as ex:
+                    out["tried"].append("U=%d k=%d K=%d: %s: %s" % (U, k, K, type(ex).__name__, ex))
+                    continue
+                if script is None:
+                    out["tried"].append(info)
+                    continue
+                ok, obs = W.replay_forced(su, sch, harness, task["program"], script, info)
+                if ok:
+                    out["found"] = (script, obs, info)
+                    break
+                out["tried"].append("U=%d k=%d K=%d: solver history %s did not reproduce natively (%s)" % (U, k, K, script, obs[:1]))
+            return out
         for (U, k, K) in task["plans"]:
             left = t_end - time.time()
             if left < 5:
